@@ -107,7 +107,7 @@ func wedgedNotMine(s Script, tr Trace) string {
 func TestC03(t *testing.T) {
 	run(t, spec{
 		id:    "C03",
-		rule:  "rapid-generated join/unite scripts (v1 join, v2 join, v2 unite; JoinSize, copy/no-copy, timeout from d ns to none, inaccuracy 1..100, input capacity 0..6, producer gaps around the timeout, consumer delays/holds/scribbling) on a fake clock; oracle: element-by-element equality of the concatenated outputs with the written stream + size rules; non-trivial = at least one slice was cut by a timeout, or (unite) an empty or oversize input slice occurred; distinct = distinct script JSON",
+		rule:  "rapid-generated join/unite scripts (v1 join, v2 join, v2 unite; JoinSize, copy/no-copy, timeout from d ns to none, inaccuracy 1..100, input capacity 0..6, producer gaps around the timeout, producer started before or after creation, unite producers allocating every slice, cutting them out of one array in several layouts, or sending overlapping windows of one constant block, consumer delays/holds/scribbling/appending) on a fake clock; oracle: element-by-element equality of the concatenated outputs with the written stream + size rules; non-trivial = at least one slice was cut by a timeout, or (unite) an empty or oversize input slice occurred; distinct = distinct script JSON",
 		check: CheckC03,
 		nontriv: func(s Script, tr Trace) bool {
 			z, _, _, _, m := inLenClasses(s)
@@ -183,7 +183,7 @@ func TestC11(t *testing.T) {
 func TestC16(t *testing.T) {
 	run(t, spec{
 		id:     "C16",
-		rule:   "v1 join scripts with Stop() or context cancel injected after delivery #k (while it is held, before release) or at a virtual time (before any data, mid-accumulation, with the output buffer full, producer blocked, input never closed); oracle: Stop returns, Output() is closed at that moment (non-blocking drain), delivered elements are an in-order duplicate-free subsequence; non-trivial = the stop was issued while a no-copy slice was unreleased, or while the consumer was not reading, or before the first delivery; distinct = distinct script JSON",
+		rule:   "v1 join scripts with Stop() or context cancel injected after delivery #k (while it is held, before release) at a virtual time (before any data, mid-accumulation, with the output buffer full, producer blocked, input never closed) or right after the producer's write #k in the middle of a burst; oracle: Stop returns, Output() is closed at that moment (non-blocking drain), delivered elements are an in-order duplicate-free subsequence; non-trivial = the stop was issued while a no-copy slice was unreleased, or while the consumer was not reading, or before the first delivery; distinct = distinct script JSON",
 		focus:  Focus{Kinds: []string{KindV1Join}, Stop: true},
 		repeat: true,
 		pre:    func(th bool, each func(Script, string) bool) { enumerateStops(t, th, each) },
@@ -200,7 +200,7 @@ func TestC16(t *testing.T) {
 func TestC19(t *testing.T) {
 	run(t, spec{
 		id:    "C19",
-		rule:  "join lab: goroutine dump (goroutines created by the module) after Output() closed / Stop returned, for normal termination and v1 Stop/cancel at arbitrary points; non-trivial = terminated by Stop/cancel, or with a timeout ticker running",
+		rule:  "join lab: goroutine dump (goroutines created by the module) at the first quiescent point after Output() closed / Stop returned and again at the end of the run, for normal termination and v1 Stop/cancel at arbitrary points; non-trivial = terminated by Stop/cancel, or with a timeout ticker running",
 		focus: Focus{Stop: true},
 		leak:  true,
 		check: CheckC19,
